@@ -53,8 +53,10 @@ def M(id, group, file, old, new, expect, why, run=None):
 
 MUTANTS = [
     # =============================================================== conditional_independencies.py / struct.py / combinatorics.py
-    M("a01", "ci", CI, "    named = {a, b}.union(conditions)\n", "    named = {a, b}\n", ["C04", "C15"],
-      "dropped operand: the ancestral graph is taken of {a, b} only, so a conditioned collider (or its conditioned descendant) that is not an ancestor of a or b disappears"),
+    M("a01", "ci", CI, "    named = {a, b}.union(conditions)\n", "    named = {a, b}\n", ["C04"],
+      "dropped operand: the ancestral graph is taken of {a, b} only, so a conditioned collider (or its conditioned descendant) that is not an ancestor of a or b disappears. "
+      "EQUIVALENT for C15: the mutant calls C separating iff C & An({a,b}) separates; a true separator restricted to An({a,b}) still separates, so the minimum "
+      "size is unchanged and every minimum-size set the mutant accepts lies inside An({a,b}), where both tests agree"),
     M("a02", "ci", CI, "    keep = graph.ancestors_inclusive(named)\n", "    keep = graph.descendants_inclusive(named)\n", ["C04", "C15"],
       "wrong closure: descendants instead of ancestors"),
     M("a03", "ci", CI, "    evidence_graph = ancestral_graph.moralize().disorient()\n", "    evidence_graph = ancestral_graph.disorient()\n", EQ,
@@ -190,11 +192,16 @@ MUTANTS = [
       "swapped arguments: left -> middle -> right is read as a collider"),
     M("g14", "sigma", SIG, "        _only_directed_edge(graph, middle, left)\n        and _has_either_edge(graph, right, middle)\n",
       "        _only_directed_edge(graph, left, middle)\n        and _has_either_edge(graph, right, middle)\n", ["C20"], "swapped arguments in the left chain"),
-    M("g15", "sigma", SIG, "        and (middle not in conditions or middle in conditions.intersection(sigma[left]))\n", "        and middle not in conditions\n", ["C20"],
-      "dropped sigma clause in the LEFT chain only: same verdicts on acyclic graphs, but on a cycle the same chain is open from one side and closed from the other (symmetry)"),
+    M("g15", "sigma", SIG, "        and (middle not in conditions or middle in conditions.intersection(sigma[left]))\n", "        and middle not in conditions\n", EQ,
+      "dropped sigma clause in the LEFT chain only: same verdicts on acyclic graphs (sigma[left] = {left}); on a cycle the single PATH left <- middle - right "
+      "with middle conditioned is now closed from one side, but the VERDICT is unchanged: middle in sigma[left] means left -> ... -> middle, and that "
+      "directed route enters middle with an arrowhead, which together with the arrowhead from right makes the conditioned middle an open collider on another path "
+      "(every conditioned node on the route is in the same component, hence open). No verdict differs on any mixed graph on <= 3 nodes (thorough tier) nor in 40 000 random cyclic queries"),
     M("g16", "sigma", SIG, "    d = middle in conditions.intersection(sigma[left]).intersection(sigma[right])\n",
-      "    d = middle in conditions.intersection(sigma[left]).union(sigma[right])\n", ["C20"],
-      "union vs intersection in the fork: a conditioned fork node in the component of its RIGHT child only is open one way (symmetry on cyclic graphs)"),
+      "    d = middle in conditions.intersection(sigma[left]).union(sigma[right])\n", OUT,
+      "union vs intersection in the fork: on acyclic graphs sigma[right] = {right} never contains middle (same verdicts); on cyclic graphs a conditioned fork "
+      "node in the component of ONE child becomes open, but from both sides (read backwards the roles of left and right swap and the conditioned clause "
+      "applies), so symmetry and adjacency still hold: only sigma-verdicts on cyclic graphs change, which the property does not fix"),
     M("g17", "sigma", SIG, "    a = _only_directed_edge(graph, middle, left)\n    b = _only_directed_edge(graph, middle, right)\n",
       "    a = _has_either_edge(graph, middle, left)\n    b = _only_directed_edge(graph, middle, right)\n", EQ,
       "weaker fork test: everything it adds (left <-> middle -> right) is already open as a right chain under a weaker condition"),
@@ -330,6 +337,12 @@ MUTANTS = [
       "    return [(u, v) for u, v in graph.edges() if u not in vertices or v not in vertices]\n", ["C14"], "_exclude_adjacent: or vs and"),
     M("h45", "graph", GR, "            and (self.directed.edges() == other.directed.edges())\n", "            and (set(self.directed.edges()) <= set(other.directed.edges()))\n", ["C14"],
       "__eq__: subset vs equality of the directed edges"),
+    M("h47", "graph", GR, "            and self.nodes() == other.nodes()\n", "            and list(self.nodes()) == list(other.nodes())\n", ["C14"],
+      "__eq__ compares the node LISTS: equal graphs built in different insertion orders are unequal"),
+    M("h48", "graph", GR, "            and (self.undirected.edges() == other.undirected.edges())\n", "            and (set(self.undirected.edges()) == set(other.undirected.edges()))\n", ["C14"],
+      "__eq__ compares the stored orientation of the bidirected edges (insertion-order dependent)"),
+    M("h49", "graph", GR, "            isinstance(other, NxMixedGraph)\n            and self.nodes() == other.nodes()\n", "            self.nodes() == other.nodes()\n", OUT,
+      "__eq__ without the isinstance test: comparing with a non-graph raises AttributeError instead of answering False; the property compares graphs with graphs"),
     M("h46", "graph", GR, "        vertices = _ensure_set(vertices)\n        return self.from_edges(\n            nodes=self.nodes() - vertices,\n",
       "        vertices = _ensure_set(vertices)\n        self.directed.remove_nodes_from(vertices)\n        return self.from_edges(\n            nodes=self.nodes() - vertices,\n", ["C14"],
       "remove_nodes_from mutates the receiver (directed part only)"),
@@ -371,8 +384,9 @@ MUTANTS = [
     M("k23", "latent", LAT, "        graph.add_node(new_node, **{tag: True})\n", "        graph.add_node(new_node, **{tag: False})\n", ["C16"], "the exogenous copy is observed"),
     M("k24", "latent", LAT, "        children = set(graph.successors(node))\n        if 0 == len(children):\n            continue\n", "        children = set(graph.successors(node))\n", OUT,
       "rule 1 also rewrites childless latents (the copy is a widow and is removed by rule 2): only the reported widow names change"),
-    M("k25", "latent", LAT, "    for node in nx.topological_sort(graph):\n        if graph.nodes[node][tag]:\n", "    for node in list(graph.nodes):\n        if graph.nodes[node][tag]:\n", ["C16"],
-      "insertion order instead of topological order (and a snapshot instead of a lazy walk): latents removed by rule 1 are looked up again"),
+    M("k25", "latent", LAT, "    for node in nx.topological_sort(graph):\n        if graph.nodes[node][tag]:\n", "    for node in list(graph.nodes):\n        if graph.nodes[node][tag]:\n", OUT,
+      "insertion order instead of topological order, and a snapshot instead of a lazy walk over the graph being rewritten: rule 1 commutes, so observed nodes, "
+      "idempotence and the projection are unaffected (no oracle failure in 100 000 cases of the extended search); the `_prime` names and the reported sets differ"),
     M("k26", "latent", LAT, "        if left_children == right_children and left > right:\n", "        if left_children == right_children and left >= right:\n", ["C16"],
       "> vs >=: every latent is redundant with respect to itself"),
     M("k27", "latent", LAT, "        elif left_children < right_children:\n", "        elif left_children <= right_children and left != right:\n", ["C16"],
@@ -390,7 +404,8 @@ MUTANTS = [
       "early exit: the exogenous copy reaches one child only"),
     M("k41", "latent", LAT, "    _ = transform_latents_with_parents(graph, tag=tag)\n    _, widows = remove_widow_latents(graph, tag=tag)\n",
       "    _, widows = remove_widow_latents(graph, tag=tag)\n    _ = transform_latents_with_parents(graph, tag=tag)\n", OUT,
-      "rule 2 before rule 1: widows exist before rule 1 and rule 1 creates none from non-widows... unless a latent's children are all latent widows"),
+      "rule 2 before rule 1: the final graph is the same (rule 1 never turns a latent with children into a widow); only the reported widow set differs "
+      "(chains of childless latents are reported under their own names instead of the names of their exogenous copies)"),
     M("k42", "latent", LAT, "    remove = set(iter_unidirectional_latents(graph, tag=tag))\n    graph.remove_nodes_from(remove)\n", "    remove = set(iter_unidirectional_latents(graph, tag=tag))\n", OUT,
       "rule 3 reports but does not remove: single-child exogenous latents stay, projection unchanged"),
     M("k43", "latent", LAT, "    lv_dag = NxMixedGraph.to_latent_variable_dag(graph, tag=tag)\n    if latents is not None:\n", "    lv_dag = NxMixedGraph.to_latent_variable_dag(graph, tag=tag)\n    if latents:\n", EQ,
